@@ -536,8 +536,9 @@ def run_world(world):
                 from flowjax.train import fit_to_data
 
                 x, cond, fault_rows = make_data(world, model_plain)
+                seam = {} if world.get("use_defaults") else {"loss_fn": loss, "optimizer": opt}
                 ret_model, losses = fit_to_data(
-                    key, model0, x, condition=cond, loss_fn=loss, optimizer=opt,
+                    key, model0, x, condition=cond, learning_rate=world["lr"], **seam,
                     max_epochs=world["max_epochs"], max_patience=world["max_patience"], batch_size=world["batch_size"],
                     val_prop=world["val_prop"], return_best=world["return_best"], show_progress=world.get("show_progress", False),
                 )
@@ -546,7 +547,8 @@ def run_world(world):
                 from flowjax.train import fit_to_variational_target
 
                 ret_model, losses = fit_to_variational_target(
-                    key, model0, loss, steps=world["steps"], optimizer=opt, return_best=world["return_best"],
+                    key, model0, loss.inner if world.get("use_defaults") else loss, steps=world["steps"],
+                    optimizer=None if world.get("use_defaults") else opt, learning_rate=world["lr"], return_best=world["return_best"],
                     show_progress=world.get("show_progress", False),
                 )
                 losses = {"vi": [float(v) for v in losses]}
